@@ -515,6 +515,74 @@ def ob_size(names):
               verdict="finite-enumeration", nontrivial=False)
 
 
+# ------------------------------------------------------------------ utf8_truncate / utf8_repeat_string (bcrypt's $2$ key repetition, 72-byte cut)
+def ob_utf8_helpers(n, size):
+    """for every content of n bytes: utf8_repeat_string(s, size) is the first `size` bytes of s repeated for ever, extended to
+    the next byte that is not a UTF-8 continuation byte (at most 3 more); utf8_truncate(s, k) likewise"""
+    import passlib.utils as U
+    from vlib.sbytes import bytes_
+    s = SBytes.var("s", n)
+
+    def run():
+        return U.utf8_repeat_string(s, size)
+    with patched((U, "bytes", bytes_)):
+        paths = explore(run, max_paths=2000)
+    for p in paths:
+        if p.exc is not None:
+            if isinstance(p.exc, Unsupported):
+                return inconclusive("Unsupported: %s" % p.exc)
+            r, m = check(p.cond())
+            if r == "sat":
+                return _uviol(n, size, m, s, "raises %r" % (p.exc,))
+            continue
+        out = SBytes.lift(p.result)
+        L = len(out)
+        if L < size or L > size + 3:
+            return _uviol(n, size, check(p.cond())[1], s, "returns %d bytes for size %d" % (L, size))
+        # content: byte i is s[i mod n]
+        bad = z3.Or(*[_t8(out.b[i]) != _t8(s.b[i % n]) for i in range(L)])
+        r, m = check(p.cond(), bad)
+        if r == "sat":
+            return _uviol(n, size, m, s, "is not the repetition of the input")
+        # the cut: every byte taken beyond `size` is a continuation byte, and the one after the cut is not (unless the limit of 3 was hit)
+        ext = [z3.And(z3.UGE(_t8(s.b[i % n]), 0x80), z3.ULE(_t8(s.b[i % n]), 0xBF)) for i in range(size, L)]
+        nxt = s.b[L % n]
+        total = n * (1 + (size - 1) // n)          # the function repeats just often enough to cover `size`
+        stop_ok = z3.Or(z3.BoolVal(L == size + 3 or L == total), z3.Not(z3.And(z3.UGE(_t8(nxt), 0x80), z3.ULE(_t8(nxt), 0xBF))))
+        if L > total:
+            return _uviol(n, size, check(p.cond())[1], s, "returns more bytes (%d) than the repetition holds" % L)
+        r, m = check(p.cond(), z3.Not(z3.And(*(ext + [stop_ok]))))
+        if r == "sat":
+            return _uviol(n, size, m, s, "is cut at the wrong place (%d bytes)" % L)
+        if r != "unsat":
+            return inconclusive("solver %s" % r)
+    return ok("utf8_repeat_string(%d symbolic bytes, %d): the repetition, cut at the first non-continuation byte at or after %d "
+              "(%d paths)" % (n, size, size, len(paths)), paths=len(paths))
+
+
+def _uviol(n, size, m, s, what):
+    data = [m.eval(_t8(b), True).as_long() for b in s.b] if m is not None and hasattr(m, "eval") else [65] * n
+    return violation("utf8_repeat_string(%r, %d) %s" % (bytes(data), size, what), "utf8-helpers",
+                     {"module": "harness.c05", "func": "replay_utf8_helpers", "args": {"data": data, "size": size}})
+
+
+def replay_utf8_helpers(data, size):
+    import passlib.utils as U
+    import itertools
+    s = bytes(data)
+    try:
+        out = U.utf8_repeat_string(s, size)
+    except Exception as e:
+        return "utf8_repeat_string(%r, %d) raises %r" % (s, size, e)
+    inf = s * (1 + (size - 1) // len(s))
+    k = min(size, len(inf))
+    while k < min(size + 3, len(inf)) and 0x80 <= inf[k] <= 0xBF:
+        k += 1
+    if out != inf[:k]:
+        return "utf8_repeat_string(%r, %d) = %r, expected %r" % (s, size, out, inf[:k])
+    return False
+
+
 def replay_ctx_truncate():
     """truncate_error configured through a CryptContext (context-wide, per scheme, per category) reaches the hasher: one byte past
     the limit is refused, the limit itself is hashed; without the option the hasher's own default applies"""
@@ -628,6 +696,9 @@ def run(tier, seed, t0, only=None):
     for i in range(0, len(names), 8):
         obs.append(Ob("size-limit#%d" % (i // 8), ob_size, {"names": names[i:i + 8]}, timeout=1200))
     obs.append(Ob("ctx-truncate-error", ob_ctx_truncate, timeout=600))
+    # (the function's own assert-only sanity check decodes the whole repetition, which forks per byte: small n only)
+    for n in ((1, 2, 3, 4, 5, 6) if tier == "quick" else range(1, 9)):
+        obs.append(Ob("utf8-repeat[n=%d]" % n, ob_utf8_helpers, {"n": n, "size": 72}, timeout=600))
     if only:
         obs = [o for o in obs if only in o.name]
     results = runner.run_obligations(obs)
